@@ -633,3 +633,6 @@ pub fn parse_hex_color(lexer: VLexer, options: &crate::Options<'_>) -> (Result<c
     let toks = std::mem::replace(&mut p.toks, Lexer::verif_from_tokens(Vec::new(), span, true));
     (r, VLexer(toks))
 }
+
+/// The serializer type, nameable from harness stubs
+pub type VSerializer<'a> = crate::serializer::Serializer<'a>;
